@@ -63,6 +63,18 @@ pub fn generate(rng: &mut Rng, tier: &str, shard: usize, nshards: usize, out: &m
         let r = rng.below(40);
         if r == 0 { a = dec(BigInt::from(0), rng.range(-30, 30)); }
         if r == 1 { let k = rng.range(0, 20); a = dec(pow10(k as u64), k); }
+        // short radicands a few units below / above a perfect cube at the smallest precisions: the shifted integer
+        // (3(p+4) digits) then fits a machine word, where a hardware cube root would round to the cube's own root (seeded C11h)
+        let mut p = p;
+        if r == 2 || r == 3 {
+            p = 1 + rng.below(3);
+            let l = p as usize + 4;
+            let c = BigInt::from(gen_int_len(rng, l).magnitude().clone());
+            let d = BigInt::from(*rng.pick(&[1i64, 1, 2, 7, 100, -1]));
+            let v = &c * &c * &c - d;
+            let v = if v <= BigInt::from(0) { BigInt::from(7) } else { v };
+            a = dec(if rng.chance(1, 2) { -v } else { v }, rng.range(-6, 24));
+        }
         let (mn, _) = *rng.pick(MODES);
         let do_mirror = rng.chance(1, 8);
         if keep {
